@@ -871,6 +871,27 @@ theorem elems_class_doc {o : Opts} {cs : List Chunk} {preB postB : List Block} {
     exact ⟨s2, r, h1, h2, h3, trivial⟩)
   exact ⟨r, by rw [h, pruneC_packed _ _ _ hpk]; simp [denote, denoteBlock], hr⟩
 
+/-- … with the position of the report (`hstep`: the `_at` form of the class theorem) -/
+theorem elems_class_doc_at {o : Opts} {cs : List Chunk} {preB postB : List Block} {bc : Str} {pre post : List Elem} {D : List TokSpec}
+    (H : ElemHost o cs preB postB bc pre post D) (es : List Elem) (C : Code) (K j : Nat) (hK : K ≤ 2 * D.length + 18)
+    (hj : j ≤ (elemsToks pre).length + D.length)
+    (hpk : allPacked (denoteElems o.dia o.normKey es [] []).2)
+    (hstep : ∀ (s1 : PS) (w1 : W) (f : Nat), w1.cif = denote o.dia o.normKey preB ++ [.mk bc [] []] →
+        szElems pre + szElems post + K + 1 ≤ f →
+        Feeds o s1 (elemsToks pre ++ (D ++ (elemsToks post ++ (blocksToks postB ++ [(.end_, [])])))) →
+        ∃ s2 r, elemsLoop o (f + post.length + 1 + pre.length) s1 (some [o.norm bc]) true acceptAll w1
+            = elemsLoop o f s2 (some [o.norm bc]) true acceptAll
+                { log := r :: w1.log,
+                  cif := denote o.dia o.normKey preB ++ [.mk bc (denoteElems o.dia o.normKey es [] []).1 (denoteElems o.dia o.normKey es [] []).2] }
+          ∧ r.code = C ∧ Feeds o s2 (blocksToks postB ++ [(.end_, [])]) ∧ RepAt o s1 j r) :
+    OneReportAt o cs C (preB ++ [{ code := bc, body := es }] ++ postB) ((blocksToks preB).length + 1 + j) := by
+  obtain ⟨r, h, hr, hat⟩ := elems_class H _ _ C K (fun s1 r => RepAt o s1 j r) hK hstep
+  refine ⟨r, by rw [h, pruneC_packed _ _ _ hpk]; simp [denote, denoteBlock], hr, ?_⟩
+  refine line_of_block H.toTextOk ?_ hat
+  rw [H.hToks]
+  simp only [List.length_append, List.length_cons]
+  omega
+
 /-- loops of the block around a frame: none is empty -/
 theorem allPacked_around (o : Opts) (pre post : List Elem) (fc : Str) (body : List Item) (seen2 fseen2 : List Str)
     (hpre : wfElems o pre [] [] = true) (hpost : wfElems o post seen2 fseen2 = true) :
@@ -890,15 +911,17 @@ theorem C12_chars_invalid_framecode (o : Opts) (cs : List Chunk) (preB postB : L
     (hwb : wfItems o body [] = true) (hpost : wfElems o post seen2 fseen2 = true)
     (hseen2 : ∀ k ∈ normNames o (denoteElems o.dia o.normKey (pre ++ [.frame fc (body.map Elem.plain)]) [] []).2, k ∈ seen2)
     (hfseen2 : ∀ c ∈ (denoteElems o.dia o.normKey (pre ++ [.frame fc (body.map Elem.plain)]) [] []).1, o.norm c.code ∈ fseen2) :
-    OneReport o cs CIF_INVALID_FRAMECODE (preB ++ [{ code := bc, body := pre ++ [.frame fc (body.map Elem.plain)] ++ post }] ++ postB) := by
+    OneReportAt o cs CIF_INVALID_FRAMECODE (preB ++ [{ code := bc, body := pre ++ [.frame fc (body.map Elem.plain)] ++ post }] ++ postB)
+      ((blocksToks preB).length + 1 + ((elemsToks pre).length + 0)) := by
   have h4 := Lemmas.WriterChunks.szItems_toks body
-  refine elems_class_doc H _ CIF_INVALID_FRAMECODE (szItems body + body.length + 3)
-    (by simp only [List.length_cons, List.length_append, List.length_nil]; omega)
+  refine elems_class_doc_at H _ CIF_INVALID_FRAMECODE (szItems body + body.length + 3) _
+    (by simp only [List.length_cons, List.length_append, List.length_nil]; omega) (by omega)
     (allPacked_around o pre post fc body seen2 fseen2 H.wfRun hpost) ?_
   intro s1 w1 f hw1 hf hF1
-  exact C12_invalid_framecode o _ bc H.fresh' H.mfd pre post fc body [] [] seen2 fseen2 _ s1 f w1 [] [] hw1 H.wfRun (nil_seen o)
+  obtain ⟨s2, r, h1, h2, h3, h4, _⟩ := C12_invalid_framecode_at o _ bc H.fresh' H.mfd pre post fc body [] [] seen2 fseen2 _ s1 f w1 [] [] hw1 H.wfRun (nil_seen o)
     (by intro c hc; cases hc) hn0 hinv hnew hwb hpost hseen2 hfseen2 (by omega) (blockFollow_term (blocks_rest_head postB)) hF1
 
+  exact ⟨s2, r, h1, h2, h3, h4⟩
 
 /-- **C12_chars_eof_in_frame** — the input ends inside a save frame (the last construct of the last block).  One report,
     CIF_EOF_IN_FRAME; the content is that of the document with the frame terminated. -/
@@ -906,16 +929,17 @@ theorem C12_chars_eof_in_frame (o : Opts) (cs : List Chunk) (preB : List Block) 
     (fc : Str) (body : List Item) (H : ElemHost o cs preB [] bc pre [] ((.frameHead, fc) :: itemsToks body))
     (hcode : wfCode fc = true) (hnew : ∀ c ∈ (denoteElems o.dia o.normKey pre [] []).1, codeIs o.norm (o.norm fc) c = false)
     (hwb : wfItems o body [] = true) :
-    OneReport o cs CIF_EOF_IN_FRAME (preB ++ [{ code := bc, body := pre ++ [.frame fc (body.map Elem.plain)] }] ++ []) := by
+    OneReportAt o cs CIF_EOF_IN_FRAME (preB ++ [{ code := bc, body := pre ++ [.frame fc (body.map Elem.plain)] }] ++ [])
+      ((blocksToks preB).length + 1 + ((elemsToks pre).length + (1 + (itemsToks body).length))) := by
   have h4 := Lemmas.WriterChunks.szItems_toks body
   have hpk := allPacked_around o pre [] fc body [] [] H.wfRun rfl
   rw [List.append_nil] at hpk
-  refine elems_class_doc H _ CIF_EOF_IN_FRAME (szItems body + body.length + 3)
-    (by simp only [List.length_cons]; omega) hpk ?_
+  refine elems_class_doc_at H _ CIF_EOF_IN_FRAME (szItems body + body.length + 3) _
+    (by simp only [List.length_cons]; omega) (by simp only [List.length_cons]; omega) hpk ?_
   intro s1 w1 f hw1 hf hF1
-  have := C12_eof_in_frame o _ bc H.fresh' H.mfd pre fc body [] [] [] [] s1 f w1 [] [] hw1 H.wfRun (nil_seen o)
+  obtain ⟨s2, r, h1, h2, h3, h4, _⟩ := C12_eof_in_frame_at o _ bc H.fresh' H.mfd pre fc body [] [] [] [] s1 f w1 [] [] hw1 H.wfRun (nil_seen o)
     (by intro c hc; cases hc) hcode hnew hwb (by simp only [szElems] at hf; omega) (by simpa [elemsToks, blocksToks] using hF1)
-  simpa [blocksToks] using this
+  exact ⟨s2, r, by simpa using h1, h2, by simpa [blocksToks] using h3, h4⟩
 
 /-- **C12_chars_no_frame_term** — a data block header inside a save frame (the last construct of its block).  One report,
     CIF_NO_FRAME_TERM; the content is that of the document with the frame terminated in front of the header. -/
@@ -923,17 +947,18 @@ theorem C12_chars_no_frame_term (o : Opts) (cs : List Chunk) (preB postB : List 
     (fc : Str) (body : List Item) (H : ElemHost o cs preB (b :: postB) bc pre [] ((.frameHead, fc) :: itemsToks body))
     (hcode : wfCode fc = true) (hnew : ∀ c ∈ (denoteElems o.dia o.normKey pre [] []).1, codeIs o.norm (o.norm fc) c = false)
     (hwb : wfItems o body [] = true) :
-    OneReport o cs CIF_NO_FRAME_TERM (preB ++ [{ code := bc, body := pre ++ [.frame fc (body.map Elem.plain)] }] ++ b :: postB) := by
+    OneReportAt o cs CIF_NO_FRAME_TERM (preB ++ [{ code := bc, body := pre ++ [.frame fc (body.map Elem.plain)] }] ++ b :: postB)
+      ((blocksToks preB).length + 1 + ((elemsToks pre).length + (1 + (itemsToks body).length))) := by
   have h4 := Lemmas.WriterChunks.szItems_toks body
   have hpk := allPacked_around o pre [] fc body [] [] H.wfRun rfl
   rw [List.append_nil] at hpk
-  refine elems_class_doc H _ CIF_NO_FRAME_TERM (szItems body + body.length + 3)
-    (by simp only [List.length_cons]; omega) hpk ?_
+  refine elems_class_doc_at H _ CIF_NO_FRAME_TERM (szItems body + body.length + 3) _
+    (by simp only [List.length_cons]; omega) (by simp only [List.length_cons]; omega) hpk ?_
   intro s1 w1 f hw1 hf hF1
-  have := C12_no_frame_term o _ bc H.fresh' H.mfd pre fc body [] [] b.code (elemsToks b.body ++ (blocksToks postB ++ [(.end_, [])]))
+  obtain ⟨s2, r, h1, h2, h3, h4, _⟩ := C12_no_frame_term_at o _ bc H.fresh' H.mfd pre fc body [] [] b.code (elemsToks b.body ++ (blocksToks postB ++ [(.end_, [])]))
     s1 f w1 [] [] hw1 H.wfRun (nil_seen o)
     (by intro c hc; cases hc) hcode hnew hwb (by simp only [szElems] at hf; omega) (by simpa [elemsToks, blocksToks] using hF1)
-  simpa [blocksToks] using this
+  exact ⟨s2, r, by simpa using h1, h2, by simpa [blocksToks] using h3, h4⟩
 
 /-- **C12_chars_frame_nesting_depth** — a frame header inside a save frame while frames do not nest (`max_frame_depth = 1`).  One
     report, CIF_NO_FRAME_TERM; the content is that of the document with the first frame terminated in front of the second, which
@@ -945,17 +970,18 @@ theorem C12_chars_frame_nesting_depth (o : Opts) (cs : List Chunk) (preB postB :
     (hwb : wfItems o body [] = true) (hpost : wfElems o (.frame fc2 (body2.map Elem.plain) :: post) seen2 fseen2 = true)
     (hseen2 : ∀ k ∈ normNames o (denoteElems o.dia o.normKey (pre ++ [.frame fc (body.map Elem.plain)]) [] []).2, k ∈ seen2)
     (hfseen2 : ∀ c ∈ (denoteElems o.dia o.normKey (pre ++ [.frame fc (body.map Elem.plain)]) [] []).1, o.norm c.code ∈ fseen2) :
-    OneReport o cs CIF_NO_FRAME_TERM
-      (preB ++ [{ code := bc, body := pre ++ [.frame fc (body.map Elem.plain)] ++ .frame fc2 (body2.map Elem.plain) :: post }] ++ postB) := by
+    OneReportAt o cs CIF_NO_FRAME_TERM
+      (preB ++ [{ code := bc, body := pre ++ [.frame fc (body.map Elem.plain)] ++ .frame fc2 (body2.map Elem.plain) :: post }] ++ postB)
+      ((blocksToks preB).length + 1 + ((elemsToks pre).length + (1 + (itemsToks body).length))) := by
   have h4 := Lemmas.WriterChunks.szItems_toks body
-  refine elems_class_doc H _ CIF_NO_FRAME_TERM (szItems body + body.length + 3)
-    (by simp only [List.length_cons]; omega)
+  refine elems_class_doc_at H _ CIF_NO_FRAME_TERM (szItems body + body.length + 3) _
+    (by simp only [List.length_cons]; omega) (by simp only [List.length_cons]; omega)
     (allPacked_around o pre _ fc body seen2 fseen2 H.wfRun hpost) ?_
   intro s1 w1 f hw1 hf hF1
-  have := C12_frame_nesting_depth o _ bc H.fresh' hmfd pre post fc fc2 body body2 [] [] seen2 fseen2 _ s1 f w1 [] [] hw1 H.wfRun
+  obtain ⟨s2, r, h1, h2, h3, h4, _⟩ := C12_frame_nesting_depth_at o _ bc H.fresh' hmfd pre post fc fc2 body body2 [] [] seen2 fseen2 _ s1 f w1 [] [] hw1 H.wfRun
     (nil_seen o) (by intro c hc; cases hc) hcode hnew hwb hpost hseen2 hfseen2 (by omega)
     (blockFollow_term (blocks_rest_head postB)) hF1
-  simpa using this
+  exact ⟨s2, r, by simpa using h1, h2, h3, h4⟩
 
 
 /-- **C12_chars_dup_framecode** — a save frame header whose normalised code an earlier frame of the block has (any spelling), with
